@@ -95,14 +95,16 @@ namespace avel {
 
     [[nodiscard]]
     AVEL_FINL std::int32_t negate(bool m, std::int32_t x) {
-        std::int32_t mask = -m;
-        return (x ^ mask) - mask;
+        //Computed on the unsigned type so that negating the minimum value wraps instead of overflowing
+        std::uint32_t mask = -std::uint32_t(m);
+        return std::int32_t((std::uint32_t(x) ^ mask) - mask);
     }
 
     [[nodiscard]]
     AVEL_FINL std::int32_t abs(std::int32_t x) {
         if (x < 0) {
-            return -x;
+            //Negated on the unsigned type so that the minimum value wraps instead of overflowing
+            return std::int32_t(std::uint32_t(0) - std::uint32_t(x));
         } else {
             return x;
         }
